@@ -275,13 +275,16 @@ func c15Child(scPath string) int {
 		// C08 (HQ seen-store): an asset the HQ reported as unseen must be fetched
 		unseen := map[string]bool{}
 		asked := map[string]bool{}
+		// keyed by scheme://host/path: whichever spelling of the query the crawler sends, the HQ's answer
+		// is about that asset (every generated asset has its own path)
+		noQuery := func(s string) string { return strings.SplitN(s, "?", 2)[0] }
 		for _, c := range calls {
 			for _, u := range c.URLs {
 				if c.Kind == "seencheck" {
-					asked[u.Value] = true
+					asked[noQuery(u.Value)] = true
 				}
 				if c.Kind == "seencheck-unseen" {
-					unseen[u.Value] = true
+					unseen[noQuery(u.Value)] = true
 				}
 			}
 		}
@@ -291,7 +294,7 @@ func c15Child(scPath string) int {
 		}
 		var c08 []vrec
 		for _, a := range oddAssets {
-			if asked[a] && unseen[a] && verdict == "quiescent" {
+			if asked[noQuery(a)] && unseen[noQuery(a)] && verdict == "quiescent" {
 				rep.event("hq_unseen_assets_with_odd_query", 1)
 				// the origin sees the request with the query as sent on the wire; compare by path
 				found := false
